@@ -73,7 +73,8 @@ def shapes(tier, seed):
         acts = [a for a in ACTIONS if needs_proc or True]
         if needs_proc:
             acts = [a for a in acts if a not in ("exec M",)]
-        for L in range(1, k + 1):
+        deep = tname in ("iter", "iter-xfer", "sql-source", "sql-mat", "nested", "chain-shared", "mat-of-processed", "trivial-mat-over-transfer")
+        for L in range(1, (k if deep else 3) + 1):  # length-4 histories (thorough) for eight of the families
             for hist in itertools.product(acts, repeat=L):
                 if needs_proc and not any(a.startswith("proc") or a.startswith("attach") for a in hist):
                     continue
@@ -381,7 +382,7 @@ def describe(tier):
                        "below the materialization is iterated at most once and the transfer / materialize hooks run at most once over the "
                        "whole history.  z3 decides that every execution returns the rows of direct evaluation - or of the attached payload "
                        "when an attach preceded the first evaluation (cached rows).",
-        "bounds": {"history length": k, "rows per leaf": N, "tree families": 6},
+        "bounds": {"history length": f"{k} (3 for the marker / chain-pruning families)", "rows per leaf": N, "tree families": len(trees())},
         "outside": ["longer histories", "concurrent histories"],
         "assumptions": ["sqlmodel semantics for the SQL-side evaluations"],
         "rule": "one evaluation = one batch of 30 histories, each explored on all paths",
